@@ -936,3 +936,95 @@ def remat_static_args(case, ctx):
   ctx.note(labels=[form, 'layout-' + ''.join(n[0] for n in layout),
                    case['order']],
            nontrivial=layout[0] != 'x')
+
+
+# ----------------------------------------------------------------------------
+# a jitted module whose (static) attributes differ must not reuse the trace
+# of another instance
+def _jattr_body(self, x):
+  y = jnp.roll(x, self.k, axis=-1) * (self.k + 3.0) + sum(self.axes)
+  if self.flag:
+    y = -y
+  if self.mode == 't':
+    y = jnp.tanh(y)
+  return y + jnp.sum(x, axis=self.k)[..., None] if x.ndim >= 2 else y
+
+
+class JAttrPlain(nn.Module):
+  k: int = 0
+  axes: tuple = ()
+  flag: bool = False
+  mode: str = 'id'
+
+  @nn.compact
+  def __call__(self, x):
+    return _jattr_body(self, x)
+
+
+class JAttrJit(nn.Module):
+  k: int = 0
+  axes: tuple = ()
+  flag: bool = False
+  mode: str = 'id'
+
+  @nn.jit
+  @nn.compact
+  def __call__(self, x):
+    return _jattr_body(self, x)
+
+
+JAttrCls = nn.jit(JAttrPlain)
+
+
+class JAttrParent(nn.Module):
+  configs: tuple = ()
+  kind: str = 'plain'
+
+  @nn.compact
+  def __call__(self, x):
+    cls = {'plain': JAttrPlain, 'decorator': JAttrJit, 'class': JAttrCls}[
+        self.kind]
+    return [cls(k=k, axes=tuple(ax), flag=fl, mode=mo)(x)
+            for k, ax, fl, mo in self.configs]
+
+
+@clause('jit_attribute_sensitivity',
+        strategy=lambda: st.fixed_dictionaries({
+            'histories': st.lists(st.lists(st.tuples(
+                st.sampled_from([-2, -1, 0, 1]),
+                st.lists(st.sampled_from([-2, -1, 0, 1, 2]), max_size=2).map(
+                    tuple),
+                st.booleans(), st.sampled_from(['id', 't'])), min_size=1,
+                max_size=4).map(tuple), min_size=1, max_size=3),
+            'kind': st.sampled_from(['decorator', 'class']),
+            'seed': st.integers(0, 2**16)}),
+        quick=150, thorough=5000, quick_shards=6, thorough_shards=16,
+        shrink=False,
+        rule='1-3 applies, each creating 1-4 instances of one jitted module '
+        'class (nn.jit on the method or on the class) that differ only in '
+        'static attributes (a small int incl. -1 / -2 used as shift and axis, '
+        'a tuple of ints, a bool, a str): every instance returns what the '
+        'unjitted class returns for its own attributes; non-trivial = two '
+        'instances differ in one attribute only')
+def jit_attribute_sensitivity(case, ctx):
+  rng = np.random.default_rng(case['seed'])
+  x = jnp.asarray(rng.normal(size=(2, 2)), jnp.float32)
+  seen = []
+  for configs in case['histories']:
+    configs = tuple((k, tuple(ax), fl, mo) for k, ax, fl, mo in configs)
+    with sut('plain apply'):
+      ref = JAttrParent(configs=configs, kind='plain').apply({}, x)
+    with sut(f'jitted apply ({case["kind"]})'):
+      got = JAttrParent(configs=configs, kind=case['kind']).apply({}, x)
+    for c, a, b in zip(configs, got, ref):
+      require(np.shape(a) == np.shape(b) and np.allclose(
+          np.asarray(a), np.asarray(b), rtol=1e-6, atol=1e-6),
+              lambda: f'jitted module with attributes {c} returned '
+              f'{np.asarray(a).tolist()}, the unjitted class returns '
+              f'{np.asarray(b).tolist()} (instances seen before: {seen})')
+      seen.append(c)
+  allc = [c for h in case['histories'] for c in h]
+  nt = any(sum(1 for u, v in zip(a, b) if u != v) == 1
+           for a in allc for b in allc)
+  ctx.note(labels=[case['kind'], f'applies{len(case["histories"])}'],
+           nontrivial=nt)
